@@ -111,6 +111,22 @@ theorem currentRef_spec (q : Ref) (s : PState) (t : Tid) :
     simp only [emit, bal_append, nc]
     by_cases e : (c, id) = q <;> simp [e]
 
+/-- dropping a handle keeps notifications and owners in step, whatever else is going on -/
+theorem dropHandle_delta (q : Ref) (s : PState) (k : Key) :
+    bal q (dropHandle s k).log - own q (dropHandle s k).owners = bal q s.log - own q s.owners := by
+  simp only [dropHandle]
+  cases ht : take k s.owners with
+  | none => rfl
+  | some p =>
+    obtain ⟨o, rest⟩ := p
+    simp only []
+    by_cases hk : o.kind = .handle
+    · simp only [hk, if_true, doClose_bal, doClose_owners]
+      have := take_own q k _ o rest ht
+      simp only [holds] at this
+      by_cases e : o.ref = some q <;> simp [e] at this ⊢ <;> omega
+    · simp only [hk, if_false]
+
 /-- the reference-count invariant: for every span, creations + clones − closes seen by the
 collector equals the number of owners the program holds -/
 def RC (s : PState) : Prop := ∀ r : Ref, bal r s.log = own r s.owners
@@ -146,17 +162,8 @@ theorem step_rc (s : PState) (op : Op) (h : RC s) : RC (step s op) := by
         by_cases e : (c, id) = q <;> simp [e] <;> omega
   | drop k =>
     simp only [step]
-    cases ht : take k s.owners with
-    | none => exact hq
-    | some p =>
-      obtain ⟨o, rest⟩ := p
-      simp only []
-      by_cases hk : o.kind = .handle
-      · simp only [hk, if_true, doClose_bal, doClose_owners]
-        have := take_own q k _ o rest ht
-        simp only [holds] at this
-        by_cases e : o.ref = some q <;> simp [e] at this ⊢ <;> omega
-      · simp only [hk, if_false]; exact hq
+    have := dropHandle_delta q s k
+    omega
   | enter t k g =>
     simp only [step]
     cases ht : take k s.owners with
@@ -273,6 +280,21 @@ theorem step_rc (s : PState) (op : Op) (h : RC s) : RC (step s op) := by
       · simp only [hk, if_true, doClose_bal, doClose_owners, doExit_bal, doExit_owners, doEnter_bal, doEnter_owners, holds] at this ⊢
         by_cases e : o.ref = some q <;> simp [e] at this ⊢ <;> omega
       · simp only [hk, if_false]; exact hq
+  | dropFutureHolding t f k =>
+    simp only [step]
+    cases ht : take f s.owners with
+    | none => exact hq
+    | some p =>
+      obtain ⟨o, rest⟩ := p
+      simp only []
+      have := take_own q f _ o rest ht
+      by_cases hk : o.kind = .future
+      · simp only [hk, if_true, doClose_bal, doClose_owners, doExit_bal, doExit_owners]
+        have hd := dropHandle_delta q (doEnter { s with owners := rest } o.ref t) k
+        simp only [doEnter_bal, doEnter_owners] at hd
+        simp only [holds] at this
+        by_cases e : o.ref = some q <;> simp [e] at this hd ⊢ <;> omega
+      · simp only [hk, if_false]; exact hq
   | setDefault t c => exact hq
 
 /-- **C03.refcount** — for EVERY finite program over the Span API, run from the empty state under
@@ -306,7 +328,7 @@ theorem disabled_silent (s : PState) (k : Key) (o : Owner) (rest : List Owner) (
     (step s (.instrument k g)).log = s.log ∧ (step s (.poll t k)).log = s.log ∧
     (step s (.dropFuture t k)).log = s.log := by
   refine ⟨?_, ?_, ?_, ?_, ?_, ?_, ?_, ?_, ?_⟩
-  · simp only [step, ht]; split <;> simp [doClose, hr]
+  · simp only [step, dropHandle, ht]; split <;> simp [doClose, hr]
   · simp only [step, ht]; split <;> simp [doEnter, hr]
   · simp only [step, ht]; split <;> simp [doClose, doExit, hr]
   · simp only [step, hf]; split <;> simp [doEnter, doExit, hr]
@@ -344,7 +366,7 @@ theorem own_collector (s : PState) (k g : Key) (t t' : Tid) (d : Option Cid) :
     (step { s with dflt := update s.dflt t' d } (.poll t k)).log = (step s (.poll t k)).log ∧
     (step { s with dflt := update s.dflt t' d } (.dropFuture t k)).log = (step s (.dropFuture t k)).log := by
   refine ⟨?_, ?_, ?_, ?_, ?_⟩
-  · simp only [step]
+  · simp only [step, dropHandle]
     cases take k s.owners with
     | none => rfl
     | some p => obtain ⟨o, rest⟩ := p; simp only []; split <;> simp [doClose_log]
@@ -371,5 +393,24 @@ example :
       [.setDefault 0 (some 1), .newSpan 0 0 3, .clone 0 3, .enter 0 0 1, .setDefault 0 (some 2), .current 0 6,
        .newSpan 0 9 3, .instrument 9 2, .poll 1 2, .dropGuard 1, .dropFuture 0 2, .drop 3]
     bal (1, 1) s.log = 0 ∧ bal (2, 1) s.log = 0 ∧ s.log.length ≥ 10 := by decide
+
+/-- **C03.future_drop_releases_inner** — dropping an `Instrumented` future whose inner future owns a
+span handle releases that handle exactly once — one `try_close` to the inner handle's OWN collector —
+whether or not the instrumenting span is enabled (a disabled outer span contributes no call at all,
+but the inner drop still happens); with an enabled outer span it happens inside that span's
+enter/exit pair, and the outer handle's close comes last. -/
+theorem future_drop_releases_inner (s : PState) (t : Tid) (f k : Key) (o oi : Owner) (rest resti : List Owner)
+    (ht : take f s.owners = some (o, rest)) (hf : o.kind = .future)
+    (hti : take k rest = some (oi, resti)) (hi : oi.kind = .handle) :
+    (step s (.dropFutureHolding t f k)).log =
+      s.log ++ enterCalls o.ref t ++ closeCalls oi.ref ++ exitCalls o.ref t ++ closeCalls o.ref := by
+  simp only [step, ht, hf, if_true, doClose_log, doExit_log, dropHandle, doEnter_owners, hti, hi, doEnter_log]
+
+/-- non-vacuity: a disabled outer span (collector 2 rejects rank 4) around an inner future that owns an
+enabled handle: the inner close is there, nothing else is -/
+example :
+    let s0 := run (PState.init (fun c l => if c == 2 then l ≤ 3 else true))
+      [.setDefault 0 (some 2), .newSpan 0 0 4, .setDefault 0 (some 1), .newSpan 0 3 3, .instrument 0 2]
+    (step s0 (.dropFutureHolding 0 2 3)).log = s0.log ++ [.close 1 1] := by decide
 
 end C03
